@@ -31,8 +31,35 @@ def _search_rules(ctx, run):
     run.functions.add(bis.qualname)
     fn, tg, lo, hi = Sym("fn", ("callable",)), W.tensor("target"), W.tensor("lo"), W.tensor("hi")
     res = interp.explore(bis, [], dict(fn=fn, target=tg, lower=lo, upper=hi, precision=W.fl("precision"), max_iter=W.integer("max_iter")))
-    inc_all = [r for r in res if not r["raises"] and [d for _, d, _ in r["cond"]][:1] == [False]]
-    inc = [r for r in inc_all if not any(d for _, d, _ in r["cond"][1:])]
+    f_lo0, f_hi0 = Op("call", (fn, lo)), Op("call", (fn, hi))
+
+    def kind_of(c_x):
+        """what a data-dependent decision on the way is: the orientation test, the width test on the initial bracket (a loop that tests
+        before its first step, run on its own), a test of the iteration budget, an exact hit - or something else"""
+        cx = c_x
+        while isinstance(cx, Op) and cx.op in ("all", "any", "not", "py_bool") and cx.args:
+            cx = cx.args[0]
+        if _is_cmp(c_x, f_lo0, f_hi0, set(FLIP)) or _is_cmp(c_x, f_lo0, f_hi0, set(FLIP), negated=True):
+            return "orientation"   # whichever way it compares the two ends: R2 judges the direction
+        if isinstance(cx, Op) and cx.op == "eq" and any(isinstance(a_, Op) and a_.op == "call" and a_.args[0] == fn for a_ in cx.args) and any(a_ == tg for a_ in cx.args):
+            return "exact"
+        if isinstance(cx, Op) and cx.op in FLIP and len(cx.args) == 2:
+            for w_, p_ in (cx.args, cx.args[::-1]):
+                if isinstance(w_, Op) and w_.op in ("max", "amax") and len(w_.args) == 1 and p_ == W.fl("precision"):
+                    d_ = w_.args[0]
+                    if isinstance(d_, Op) and d_.op == "sub" and _strip(d_.args[0]) == hi and _strip(d_.args[1]) == lo:
+                        return "width0"
+            names_ = {x_.name for x_ in walk(cx) if isinstance(x_, Sym)}
+            if names_ == {"max_iter"}:
+                return "budget"
+        return "other"
+
+    def orientation(r_):
+        o_ = [d_ for c_, d_, _ in r_["cond"] if kind_of(c_) == "orientation"]
+        return o_[0] if o_ else None
+
+    inc_all = [r for r in res if not r["raises"] and orientation(r) is False]
+    inc = [r for r in inc_all if any(e["kind"] == "loop_end" for e in r["events"]) and not any(d and kind_of(c) in ("other", "exact") for c, d, _ in r["cond"])]
     if len(inc) != 1:
         raise AnalysisError("bisect: cannot isolate the increasing-orientation path")
     r = inc[0]
@@ -40,12 +67,8 @@ def _search_rules(ctx, run):
     # further data-dependent decisions on the way (an early exit from the search): the only one that keeps "within precision of the root
     # in the ARGUMENT" is an exact hit fn(m) == target; closeness of the function VALUE says nothing about the argument where fn is flat
     for r_x in inc_all:
-        for c_x, d_x, _ in r_x["cond"][1:]:
-            cx = c_x
-            while isinstance(cx, Op) and cx.op in ("all", "any") and cx.args:
-                cx = cx.args[0]
-            exact = isinstance(cx, Op) and cx.op == "eq" and any(isinstance(a_, Op) and a_.op == "call" and a_.args[0] == fn for a_ in cx.args) and any(a_ == tg for a_ in cx.args)
-            if not exact:
+        for c_x, d_x, _ in r_x["cond"]:
+            if kind_of(c_x) == "other":
                 msg = f"additional exit/decision in the search: {str(c_x)[:120]}"
                 if msg not in problems:
                     problems.append(msg)
@@ -98,6 +121,8 @@ def _search_rules(ctx, run):
                     if isinstance(wide, Op) and wide.op in ("max", "amax") and len(wide.args) == 1 and not wide.kw and prec == W.fl("precision"):
                         ab = conv(wide.args[0])
                         okt = ab is not None and ab == (-1, 1)
+                        # `for bracket in brackets: if not wide(bracket): break` tests the bracket this iteration has just produced
+                        okt = okt or wide.args[0] == Op("sub", (updU, updL))
             if not okt:
                 problems.append(f"loop condition is {str(tests[-1]['cond'])[:60] if tests else None}, expected max(upper - lower) > precision")
             # returned value lies in the final bracket
@@ -116,13 +141,36 @@ def _search_rules(ctx, run):
     if not ok:
         run.fail(Finding("C19.R1", bis.qualname, "; ".join(problems)[:300], "the bisection step does not keep the root inside a bracket that halves each iteration", file=str(prog.modules[bis.module].path), line=bis.node.lineno))
     # ---- R2 orientation + termination
-    dec = [r2 for r2 in res if [d for _, d, _ in r2["cond"]][:1] == [True] and not TM.contradictory(r2["cond"])]
+    dec = [r2 for r2 in res if orientation(r2) is True and not TM.contradictory(r2["cond"])]
     f_lo, f_hi = Op("call", (fn, lo)), Op("call", (fn, hi))
-    okr = bool(dec) and all(_is_cmp(r2["cond"][0][0], f_lo, f_hi, {"gt", "ge"}) for r2 in dec)
+    okr = bool(dec) and all(_is_cmp(next(c_ for c_, _, _ in r2["cond"] if kind_of(c_) == "orientation"), f_lo, f_hi, {"gt", "ge"}) for r2 in dec)
     recs = [[e for e in r2["events"] if e["kind"] == "call" and e["callee"] == bis.qualname][:1] for r2 in dec]
     recs = [e for l in recs for e in l]
-    okr = okr and bool(recs) and all(same(e["bound"].get("target"), Op("neg", (tg,))) and [e["bound"].get("lower"), e["bound"].get("upper")] == [lo, hi]
-                                     and e["bound"].get("precision") == W.fl("precision") and e["bound"].get("max_iter") == W.integer("max_iter") for e in recs)
+    by_recursion = bool(recs) and all(same(e["bound"].get("target"), Op("neg", (tg,))) and [e["bound"].get("lower"), e["bound"].get("upper")] == [lo, hi]
+                                      and e["bound"].get("precision") == W.fl("precision") and e["bound"].get("max_iter") == W.integer("max_iter") for e in recs)
+    # ... or without recursion: the decreasing case runs the same loop on the mirror image (-fn, -target): same bracket, same exit test, and
+    # the ends move under the mirrored comparisons (lower takes the midpoint when fn(m) > target, upper when fn(m) <= target)
+    by_mirror = False
+    dec_loop = [r2 for r2 in dec if not r2["raises"] and any(e["kind"] == "loop_end" for e in r2["events"]) and not any(kind_of(c_) == "other" for c_, _, _ in r2["cond"])]
+    if not recs and dec_loop:
+        by_mirror = True
+        for r2 in dec_loop:
+            le2 = [e for e in r2["events"] if e["kind"] == "loop_end"]
+            ups2 = {init: (sym, upd) for _, sym, init, upd in le2[0]["updates"] if init in (lo, hi)} if len(le2) == 1 else {}
+            if set(ups2) != {lo, hi}:
+                by_mirror = False
+                continue
+            (Ls2, uL2), (Us2, uU2) = ups2[lo], ups2[hi]
+            pts2 = {e["args"][0] for e in r2["events"] if e["kind"] == "opaque_call" and e["callee"] == fn and e["args"] and any(x in (Ls2, Us2) for x in walk(e["args"][0]))}
+            if len(pts2) != 1:
+                by_mirror = False
+                continue
+            M2 = next(iter(pts2))
+            mv = {n_: _moves_when(_unmirror(u_), s_, M2, fn, tg) for n_, s_, u_ in (("lower", Ls2, uL2), ("upper", Us2, uU2))}
+            by_mirror = by_mirror and mv["lower"] in ("gt", "ge") and mv["upper"] in ("lt", "le") and (mv["lower"], mv["upper"]) != ("gt", "lt")
+            tests2 = [e["cond"] for e in r2["events"] if e["kind"] == "while_test"]
+            by_mirror = by_mirror and bool(tests2) and any(x_ == W.fl("precision") for x_ in walk(tests2[-1]))
+    okr = okr and (by_recursion or by_mirror)
     run.oblige("C19.R2", "decreasing fn: recurse on (-fn, -target) with the same bracket, precision and bound", okr, "")
     if not okr:
         run.fail(Finding("C19.R2", bis.qualname, "bisect(mf, -target, lower, upper, precision=precision, max_iter=max_iter) when fn(lower) > fn(upper)", "a decreasing function is not reduced to the increasing case", file=str(prog.modules[bis.module].path), line=bis.node.lineno))
@@ -364,6 +412,21 @@ def _moves_when(upd, sym, M, fn, tg):
     if neg:
         rel = NEG[rel]
     return rel if moves_on_true else NEG[rel]
+
+
+def _unmirror(upd):
+    """where(-a <op> -b, x, y)  ->  where(b <op> a, x, y) i.e. the comparison written for the un-negated quantities"""
+    if not (isinstance(upd, Op) and upd.op == "where" and len(upd.args) == 3):
+        return upd
+    c, x, y = upd.args
+    neg = 0
+    while isinstance(c, Op) and c.op == "not" and len(c.args) == 1:
+        neg, c = neg + 1, c.args[0]
+    if isinstance(c, Op) and c.op in FLIP and len(c.args) == 2 and all(isinstance(a_, Op) and a_.op == "neg" for a_ in c.args):
+        c = Op(FLIP[c.op], (c.args[0].args[0], c.args[1].args[0]))
+    for _ in range(neg):
+        c = Op("not", (c,))
+    return Op("where", (c, x, y))
 
 
 def where_parts(v, end):
